@@ -13,9 +13,12 @@ for x in a b; do
   # without the change: demo passes
   if cargo test --offline --test seed_demo_$x >/tmp/confirm_${id}_$x.pass.log 2>&1; then res="$res demo-passes-without"; else res="$res DEMO-FAILS-WITHOUT"; fi
   git apply _seed/patch_$x.diff || { echo "$id-$x: PATCH DOES NOT APPLY"; continue; }
+  # the build script keeps generated tables that already exist: drop them so a change under precompile/ takes effect
+  find target -path '*/build/chess-*/out/*.rs' -delete 2>/dev/null
   if cargo test --offline --lib >/tmp/confirm_${id}_$x.lib.log 2>&1 && grep -q "90 passed; 0 failed" /tmp/confirm_${id}_$x.lib.log; then res="$res 90-tests-pass-with"; else res="$res UNIT-TESTS-FAIL-WITH"; fi
   if cargo test --offline --test seed_demo_$x >/tmp/confirm_${id}_$x.fail.log 2>&1; then res="$res DEMO-PASSES-WITH"; else res="$res demo-fails-with"; fi
   git checkout -- .
+  find target -path '*/build/chess-*/out/*.rs' -delete 2>/dev/null
   echo "$id-$x(round $round):$res"
   y=$x; if [ "$round" = "2" ]; then if [ $x = a ]; then y=c; else y=d; fi; fi
   d=/verif/seeded/$id-$y; mkdir -p $d
